@@ -25,6 +25,8 @@ import (
 //	hard  (the hard limit just resolved for the same resource) + P - 2
 //	tomax 2^64-1 - used
 //	used  used - P (for releases)
+//	over  used + P (for releases: more than this context has required)
+//	chain (memory used by this context and all enclosing ones) + P - 2
 type VSpec struct {
 	K string
 	P uint64
@@ -286,6 +288,10 @@ func (x *machine) resolveAmt(v VSpec, r ctxref.Res) uint64 {
 		return clampU(new(big.Int).Sub(ctxref.MaxU, c.Used[r]))
 	case "used":
 		return clampU(new(big.Int).Sub(c.Used[r], new(big.Int).SetUint64(v.P)))
+	case "over":
+		return clampU(new(big.Int).Add(c.Used[r], new(big.Int).SetUint64(v.P)))
+	case "chain":
+		return offset(x.m.ChainUsed(r), v.P)
 	}
 	panic("bad amount kind " + v.K)
 }
@@ -411,10 +417,24 @@ func (x *machine) step(s Spec, out *[]Act) {
 
 	case "rel":
 		a := x.resolveAmt(s.Amt, ctxref.Mem)
-		if new(big.Int).SetUint64(a).Cmp(c.Used[ctxref.Mem]) > 0 {
-			a = clampU(c.Used[ctxref.Mem])
+		// excluded class: some of the release lands in a context that has only a
+		// soft memory limit
+		rest := new(big.Int).SetUint64(a)
+		softOnly, over := false, false
+		for lc := c; lc != nil && rest.Sign() > 0; lc = lc.Parent {
+			d := new(big.Int).Set(rest)
+			if d.Cmp(lc.Used[ctxref.Mem]) > 0 {
+				d.Set(lc.Used[ctxref.Mem])
+			}
+			if d.Sign() > 0 && lc.Hard[ctxref.Mem].IsInf() && !lc.Soft[ctxref.Mem].IsInf() {
+				softOnly = true
+			}
+			if lc != c && d.Sign() > 0 {
+				over = true
+			}
+			rest.Sub(rest, d)
 		}
-		if a > 0 && c.Hard[ctxref.Mem].IsInf() && !c.Soft[ctxref.Mem].IsInf() {
+		if softOnly {
 			x.classes["class:release-under-soft-only-limit"]++
 			if x.kfRel {
 				x.discards["excluded-by-finding:C07-releasemem-soft-only"]++
@@ -423,12 +443,23 @@ func (x *machine) step(s Spec, out *[]Act) {
 		}
 		*out = append(*out, Act{Op: "rel", N: a})
 		x.classes["op:rel"]++
+		if over {
+			x.classes["rel:reaches-enclosing-contexts"]++
+		}
 		if killed, _ := x.guard("ReleaseMem", func() { x.r.ReleaseMem(a) }); killed {
 			x.failf("release-killed", "ReleaseMem(%d) terminated a context", a)
 			return
 		}
-		x.m.Release(a)
-		x.addAcc(ctxref.Mem, a, -1)
+		if x.failMsg != "" {
+			return
+		}
+		delta := x.m.Release(a)
+		// what was given back at depth k was granted in the contexts at depth <= k
+		for k, d := range delta {
+			for i := 0; i < k && i < len(x.acc); i++ {
+				x.acc[i][ctxref.Mem].Sub(x.acc[i][ctxref.Mem], d)
+			}
+		}
 		x.checkAll("after release")
 
 	case "stop":
@@ -581,7 +612,7 @@ func (x *machine) rawPop() {
 	if x.failMsg != "" {
 		return
 	}
-	res := x.m.Pop()
+	res := x.m.Pop(false)
 	x.top().raw--
 	x.acc = x.acc[:len(x.acc)-1]
 	if killed || res.ParentKilled {
@@ -615,9 +646,18 @@ func (x *machine) call(s Spec, out *[]Act) {
 		entered bool
 		retErr  bool
 	)
+	var (
+		propagated bool
+		pv         any
+	)
 	func() {
 		defer func() {
 			if p := recover(); p != nil {
+				if _, ok := p.(rt.ContextTerminationError); ok && entered {
+					// CallContext ended its context and terminated the enclosing one too
+					propagated, pv = true, p
+					return
+				}
 				x.failf("go-panic", "CallContext: Go panic: %v", p)
 			}
 		}()
@@ -656,13 +696,31 @@ func (x *machine) call(s Spec, out *[]Act) {
 		x.failf("call", "CallContext did not call the function")
 		return
 	}
-	res := x.m.Pop()
+	res := x.m.Pop(true)
 	x.acc = x.acc[:len(x.acc)-1]
 	if res.ParentKilled {
 		x.aborted = true
 		return
 	}
 	x.notePop(res)
+	if propagated != res.Propagated {
+		k := res.Ctx
+		if propagated {
+			x.failf("propagation", "CallContext ended a context (status %s, terminated by limit=%v on %s, limit inherited=%v) and terminated the enclosing context too: only the termination by an inherited limit may do that",
+				k.Status, k.KillByLimit, k.KillRes, k.KillInh)
+		} else {
+			x.failf("propagation", "CallContext returned normally for a context terminated by the %s limit it had inherited from the enclosing context (hard=%s): the enclosing context, which owns the limit, must be terminated as well",
+				k.KillRes, k.Hard[k.KillRes])
+		}
+		return
+	}
+	if propagated {
+		// the enclosing context is now current and terminated: the termination
+		// travels on to whoever owns that context
+		x.classes["kill:propagated-to-enclosing-context"]++
+		x.unwind(pv)
+		return
+	}
 	if ctx == nil || isNilCtx(ctx) {
 		x.failf("call", "CallContext returned a nil context")
 		return
